@@ -145,8 +145,10 @@ def audit(prop, module, theorems):
 
 def run_impl(casefile, timeout=3600):
     t0 = time.time()
+    env = dict(os.environ, RUST_BACKTRACE="0")
+    env.pop("VIRTUAL_ENV", None)
     p = subprocess.run([PLSV_BIN, "run", casefile], stdout=subprocess.PIPE, stderr=subprocess.PIPE,
-                       timeout=timeout)
+                       timeout=timeout, env=env)
     return p.returncode, p.stdout.decode("utf-8", "replace"), time.time() - t0
 
 
@@ -179,7 +181,14 @@ def parse_answers(out):
     return ans, spec
 
 
+def strip_order(a):
+    if a and a.startswith("ok order="):
+        return "ok"
+    return a
+
+
 def agree(impl, model):
+    impl = strip_order(impl)
     if model.startswith("ANYOF "):
         alts = [a.strip() for a in model[6:].split(" || ")]
         return impl.strip() in alts
@@ -195,6 +204,7 @@ class Cases:
         self.cur = None
         self.idx = 0
         self.meta = {}         # case -> arbitrary dict
+        self.pos = {}          # (case, idx) -> index into buf of that op/q line
 
     def case(self, name, meta=None):
         self.cur = name
@@ -225,6 +235,7 @@ class Cases:
     def op(self, *toks):
         self.idx += 1
         self.queries[(self.cur, self.idx)] = ["op"] + [str(t) for t in toks]
+        self.pos[(self.cur, self.idx)] = len(self.buf)
         self._emit("op " + " ".join(str(t) for t in toks))
         return self.idx
 
@@ -234,9 +245,18 @@ class Cases:
         self._emit("q " + " ".join(str(t) for t in toks))
         return self.idx
 
-    def write(self, path):
+    def write(self, path, hints=None):
+        """hints: {(case, idx): line} inserted right before that op (model side only)"""
+        buf = self.buf
+        if hints:
+            at = {self.pos[k]: line for k, line in hints.items() if k in self.pos}
+            buf = []
+            for i, line in enumerate(self.buf):
+                if i in at:
+                    buf.append(at[i])
+                buf.append(line)
         with open(path, "w", encoding="utf-8") as f:
-            f.write("\n".join(self.buf) + "\n")
+            f.write("\n".join(buf) + "\n")
 
     def replay_text(self, case, upto_idx=None):
         return "\n".join(self.case_lines[case]) + "\n"
